@@ -53,6 +53,9 @@ def cases(desc):
             yield {"block": "standin", "seed": rng.randrange(10 ** 9)}
 
 
+NAMES = list('abcdefghijklmnopq')
+
+
 def gen_nc_case(rng):
     fmt = rng.choice(['NETCDF4', 'NETCDF4', 'NETCDF3_CLASSIC'])
     dims = rng.sample(gen.DIMS, rng.randint(1, 3))
@@ -87,11 +90,18 @@ def gen_nc_case(rng):
                 continue
             steps.append({"op": "rewrite", "name": rng.choice(names), "seed": rng.randrange(10 ** 6), "via": rng.choice(['da.write_nc', 'open_nc'])})
             continue
+        if steps and rng.random() < 0.15:
+            # a whole Dataset appended to the existing file: new variables over the dimensions the file already has
+            free = [n for n in NAMES if n not in names]
+            dsp = ncc.gen_dataset(rng, fmt, dims=list(known), axes={d: known[d] for d in known}, names=rng.sample(free, rng.randint(1, 2)))
+            steps.append({"op": "ds.write_nc:a", "ds": dsp})
+            names += list(dsp["vars"])
+            continue
         if op == 'da.write_nc:w':
             names = []
             known.clear()
             known.update({d: axes[d] for d in dims})
-        name = rng.choice([n for n in ['a', 'b', 'c', 'd', 'e', 'f', 'g', 'h', 'i'] if n not in names])
+        name = rng.choice([n for n in NAMES if n not in names])
         steps.append({"op": op, "name": name, "array": new_array(), "axes": {d: known[d] for d in known}})
         names.append(name)
     return {"block": "nc", "fmt": fmt, "steps": steps, "read_seed": rng.randrange(10 ** 6)}
@@ -144,6 +154,12 @@ def nc_body(case, ctx, tmp):
             ds = ncc.build_dataset(st["ds"])
             _, exc = ctx.call("Dataset.write_nc " + where, lambda: ds.write_nc(fn, format=fmt), operands=(ds,))
             fm = ncc.FileModel(fmt)
+            fm.write_dataset(st["ds"])
+        elif op == 'ds.write_nc:a':
+            ds = ncc.build_dataset(st["ds"])
+            ctx.outcomes['nc-append-steps'] += 1
+            ctx.outcomes['nc-dataset-append-steps'] += 1
+            _, exc = ctx.call("Dataset.write_nc(f, mode='a') " + where, lambda: ds.write_nc(fn, mode='a'), operands=(ds,))
             fm.write_dataset(st["ds"])
         elif op == 'rewrite':
             if fm is None or st["name"] not in fm.vars:
